@@ -275,6 +275,12 @@ def rule_g(R, ctx):
         ok = True
         cex = None
         names = {k: cls(k, ats[k]) for k in dec}
+        needs = {"Removed": {"D", "TD", "TA"}, "Added": {"D", "TA"}, "Retain": {"D", "TA"}}[kind]
+        lost = needs - set(names.values())
+        if lost:
+            R.ob("C11.g", fn, "step:" + kind, False, "Change::%s no longer depends on %s (its table row does): the decision is taken without "
+                                                      "asking; formula %s" % (kind, sorted(lost), fshow(f)[:200]))
+            continue
         for vals in itertools.product([False, True], repeat=len(dec)):
             env = dict(zip(dec, vals))
             named = {}
